@@ -12,8 +12,10 @@ type tk = { t : string array; mutable p : int }
 let next k = let s = k.t.(k.p) in k.p <- k.p + 1; s
 let nexti k = int_of_string (next k)
 let nextz k = z_of_string (next k)
-(* program scalar i is base-domain variable 3i (ArraySmash.sv) *)
-let svar i = sv (n_of_int i)
+(* program scalar i is base-domain variable 3i (ArraySmash.sv) in the smashing model and
+   6i (ArrayAdapt.pv) in the adaptive one *)
+let svar_ref = ref (fun i -> sv (n_of_int i))
+let svar i = !svar_ref i
 let parse_exp k =
   ignore (next k);
   let n = nexti k in
@@ -36,7 +38,46 @@ let split_ops toks =
     | x :: r -> go (x :: cur) acc r in
   go [] [] toks
 exception Crab_error
+(* one operation of a history (after its name [o] and its register [rn]); [arrkey] maps the
+   index of an array to its identifier in the model *)
+let parse_hop ns arrkey k o rn =
+  let avar i = if i < ns then VS (svar i) else VA (arrkey (i - ns)) in
+  let nat () = nat_of_int (nexti k) in
+  let arr () = arrkey (nexti k) in
+  let operand () = match next k with "v" -> OVar (svar (nexti k)) | _ -> OCst (nextz k) in
+  match o with
+  | "top" -> ATop rn | "bot" -> ABot rn
+  | "copy" -> ACopy (rn, nat ())
+  | "assign" -> let x = svar (nexti k) in AAssign (rn, x, parse_exp k)
+  | "arith" ->
+    let op = (match next k with "add" -> OpAdd | "sub" -> OpSub | "mul" -> OpMul | "sdiv" -> OpSDiv
+                              | "udiv" -> OpUDiv | "srem" -> OpSRem | _ -> OpURem) in
+    let x = svar (nexti k) in let y = svar (nexti k) in AArith (rn, op, x, y, operand ())
+  | "assume" -> let n = nexti k in AAssume (rn, List.init n (fun _ -> parse_cst k))
+  | "forget" -> let n = nexti k in AForget (rn, List.init n (fun _ -> avar (nexti k)))
+  | "forget1" -> AForget1 (rn, avar (nexti k))
+  | "project" -> let n = nexti k in AProject (rn, List.init n (fun _ -> avar (nexti k)))
+  | "rename" -> let n = nexti k in
+    let f = List.init n (fun _ -> avar (nexti k)) in let t = List.init n (fun _ -> avar (nexti k)) in ARename (rn, f, t)
+  | "expand" -> let x = avar (nexti k) in let nx = avar (nexti k) in AExpand (rn, x, nx)
+  | "ainit" -> let a = arr () in let es = parse_exp k in let lb = parse_exp k in let ub = parse_exp k in
+    let v = parse_exp k in AInit (rn, a, es, lb, ub, v)
+  | "aload" -> let x = svar (nexti k) in let a = arr () in let es = parse_exp k in let ix = parse_exp k in
+    ALoad (rn, x, a, es, ix)
+  | "astore" -> let a = arr () in let es = parse_exp k in let ix = parse_exp k in let v = parse_exp k in
+    let strong = nexti k <> 0 in AStore (rn, a, es, ix, v, strong)
+  | "arange" -> let a = arr () in let es = parse_exp k in let lb = parse_exp k in let ub = parse_exp k in
+    let v = parse_exp k in ARange (rn, a, es, lb, ub, v)
+  | "acopy" -> let l = arr () in let rr = arr () in ACopyArr (rn, l, rr)
+  | "join" | "joinw" -> let s = nat () in let t = nat () in AJoin (rn, s, t)
+  | "meet" | "meetw" -> let s = nat () in let t = nat () in AMeet (rn, s, t)
+  | "widen" -> let s = nat () in let t = nat () in AWiden (rn, s, t)
+  | "narrow" -> let s = nat () in let t = nat () in ANarrow (rn, s, t)
+  | "widenthr" -> let s = nat () in let t = nat () in let n = nexti k in
+    AWidenThr (rn, s, t, List.init n (fun _ -> nextz k))
+  | _ -> failwith ("unknown op " ^ o)
 let run_history toks =
+  svar_ref := (fun i -> sv (n_of_int i));
   match split_ops toks with
   | (_ :: nregs :: ns :: _ :: _) :: ops ->
     let nregs = int_of_string nregs and ns = int_of_string ns in
@@ -44,7 +85,6 @@ let run_history toks =
     let out = ref [] in
     let emit s = out := s :: !out in
     let rg r = aget !regs (nat_of_int r) in
-    let avar i = if i < ns then VS (svar i) else VA (n_of_int (i - ns)) in
     (try
     List.iter (fun op -> if op <> [] then begin
       let k = { t = Array.of_list op; p = 0 } in
@@ -54,45 +94,58 @@ let run_history toks =
       | "q_at" -> let r = nexti k in emit (show_state ns (rg r))
       | _ ->
         let r = nexti k in
-        let rn = nat_of_int r in
-        let nat () = nat_of_int (nexti k) in
-        let arr () = n_of_int (nexti k) in
-        let operand () = match next k with "v" -> OVar (svar (nexti k)) | _ -> OCst (nextz k) in
-        let hop = match o with
-          | "top" -> ATop rn | "bot" -> ABot rn
-          | "copy" -> ACopy (rn, nat ())
-          | "assign" -> let x = svar (nexti k) in AAssign (rn, x, parse_exp k)
-          | "arith" ->
-            let op = (match next k with "add" -> OpAdd | "sub" -> OpSub | "mul" -> OpMul | "sdiv" -> OpSDiv
-                                      | "udiv" -> OpUDiv | "srem" -> OpSRem | _ -> OpURem) in
-            let x = svar (nexti k) in let y = svar (nexti k) in AArith (rn, op, x, y, operand ())
-          | "assume" -> let n = nexti k in AAssume (rn, List.init n (fun _ -> parse_cst k))
-          | "forget" -> let n = nexti k in AForget (rn, List.init n (fun _ -> avar (nexti k)))
-          | "forget1" -> AForget1 (rn, avar (nexti k))
-          | "project" -> let n = nexti k in AProject (rn, List.init n (fun _ -> avar (nexti k)))
-          | "rename" -> let n = nexti k in
-            let f = List.init n (fun _ -> avar (nexti k)) in let t = List.init n (fun _ -> avar (nexti k)) in ARename (rn, f, t)
-          | "expand" -> let x = avar (nexti k) in let nx = avar (nexti k) in AExpand (rn, x, nx)
-          | "ainit" -> let a = arr () in let es = parse_exp k in let lb = parse_exp k in let ub = parse_exp k in
-            let v = parse_exp k in AInit (rn, a, es, lb, ub, v)
-          | "aload" -> let x = svar (nexti k) in let a = arr () in let es = parse_exp k in let ix = parse_exp k in
-            ALoad (rn, x, a, es, ix)
-          | "astore" -> let a = arr () in let es = parse_exp k in let ix = parse_exp k in let v = parse_exp k in
-            let strong = nexti k <> 0 in AStore (rn, a, es, ix, v, strong)
-          | "arange" -> let a = arr () in let es = parse_exp k in let lb = parse_exp k in let ub = parse_exp k in
-            let v = parse_exp k in ARange (rn, a, es, lb, ub, v)
-          | "acopy" -> let l = arr () in let rr = arr () in ACopyArr (rn, l, rr)
-          | "join" | "joinw" -> let s = nat () in let t = nat () in AJoin (rn, s, t)
-          | "meet" | "meetw" -> let s = nat () in let t = nat () in AMeet (rn, s, t)
-          | "widen" -> let s = nat () in let t = nat () in AWiden (rn, s, t)
-          | "narrow" -> let s = nat () in let t = nat () in ANarrow (rn, s, t)
-          | "widenthr" -> let s = nat () in let t = nat () in let n = nexti k in
-            AWidenThr (rn, s, t, List.init n (fun _ -> nextz k))
-          | _ -> failwith ("unknown op " ^ o) in
+        let hop = parse_hop ns n_of_int k o (nat_of_int r) in
         (match astep !regs hop with
          | Some rs -> regs := rs
          | None -> raise Crab_error);
         emit (show_state ns (rg r))
+    end) ops;
+    String.concat " ; " (List.rev !out)
+    with Crab_error -> "ABORT")
+  | _ -> failwith "bad history"
+(* ---- array_adaptive_domain<interval_domain> (ArrayAdapt): --mode=adapt-itv:S:N:C:M ----
+   array i of the history is the variable with index ns + 1 + i of the harness (scalars
+   first): the key of its binding in the array map *)
+let adapt_params : params option ref = ref None
+let show_cell_a c = string_of_z c.c_off ^ ":" ^ string_of_z c.c_size ^ (if c.c_rem then "R" else "")
+let show_adapt ns na arrkey with_shape d =
+  if a_is_bottom d then "_|_" else
+    (if a_is_top d then "T" else "") ^
+    String.concat "|" (List.init ns (fun i -> string_of_itv (a_at d (svar i)))) ^
+    (if not with_shape then "" else
+       " #" ^ String.concat "" (List.init na (fun i ->
+         " A" ^ string_of_int i ^ "=" ^
+         (match am_find d.d_arrs (arrkey i) with
+          | None -> "none"
+          | Some st ->
+            if st.as_smashed then "S" ^ (match st.as_esz with None -> "+oo" | Some k -> string_of_z k)
+            else "{" ^ String.concat "," (List.map (fun c ->
+                   show_cell_a c ^ (if gh_hasc d.d_gh (arrkey i) c then "" else "u")) st.as_map) ^ "}"))))
+let run_adapt_history p toks =
+  svar_ref := (fun i -> pv (n_of_int i));
+  match split_ops toks with
+  | (head :: nregs :: ns :: na :: _) :: ops ->
+    let nregs = int_of_string nregs and ns = int_of_string ns and na = int_of_string na in
+    let with_shape = head = "ashape" in
+    let arrkey i = n_of_int (ns + 1 + i) in
+    let regs = ref (List.init nregs (fun _ -> a_top)) in
+    let out = ref [] in
+    let emit s = out := s :: !out in
+    let rg r = dget !regs (nat_of_int r) in
+    (try
+    List.iter (fun op -> if op <> [] then begin
+      let k = { t = Array.of_list op; p = 0 } in
+      let o = next k in
+      match o with
+      | "q_leq" -> let s = nexti k in let t = nexti k in emit (if a_leq (rg s) (rg t) then "true" else "false")
+      | "q_at" -> let r = nexti k in emit (show_adapt ns na arrkey false (rg r))
+      | _ ->
+        let r = nexti k in
+        let hop = parse_hop ns arrkey k o (nat_of_int r) in
+        (match dstep p !regs hop with
+         | Some rs -> regs := rs
+         | None -> raise Crab_error);
+        emit (show_adapt ns na arrkey with_shape (rg r))
     end) ops;
     String.concat " ; " (List.rev !out)
     with Crab_error -> "ABORT")
@@ -191,9 +244,18 @@ let run_cells toks =
    | [] -> ());
   String.concat " ; " (List.rev !out)
 let () =
+  Array.iter (fun a ->
+      match String.split_on_char ':' a with
+      | ["--mode=adapt-itv"; s; n; c; m] ->
+        adapt_params := Some { p_smashable = s = "1"; p_nonzero = n = "1";
+                               p_max_smash = z_of_string c; p_max_size = z_of_string m }
+      | _ -> ()) Sys.argv;
   let lines = read_lines Sys.argv.(Array.length Sys.argv - 1) in
   List.iteri (fun i l ->
       let toks = split_ws l in
-      let r = try (match toks with "cells" :: _ -> run_cells toks | _ -> run_history toks)
+      let r = try (match toks, !adapt_params with
+                   | "cells" :: _, _ -> run_cells toks
+                   | _, Some p -> run_adapt_history p toks
+                   | _, None -> run_history toks)
         with Failure m -> "MODEL-ERROR " ^ m | Crab_error -> "ABORT" in
       print_string ("R " ^ string_of_int i ^ " " ^ r ^ "\n")) lines
